@@ -55,9 +55,9 @@ def with_traces(plan, suite, n):
 
 def plan_C01(tier, seed):
     if tier == "quick":
-        return with_traces(eval_plan("c01", [("F1", 2), ("F2", 2), ("F3", 2), ("F4", 1), ("F5", 1), ("U1", 1), ("U2", 1)], []),
+        return with_traces(eval_plan("c01", [("F1", 2), ("F2", 2), ("F3", 2), ("F4", 1), ("F5", 1), ("F6", 1), ("U1", 1), ("U2", 1)], []),
                            "suite2020", 300)
-    return with_traces(eval_plan("c01", [("F1", 3), ("F2", 3), ("F3", 3), ("F4", 2), ("F5", 1), ("U1", 1), ("U2", 1)], [],
+    return with_traces(eval_plan("c01", [("F1", 3), ("F2", 3), ("F3", 3), ("F4", 2), ("F5", 1), ("F6", 1), ("U1", 1), ("U2", 1)], [],
                                  workers=5, parallel=3), "suite2020", 3000)
 
 
